@@ -35,11 +35,11 @@ Definition schema_eqb (a b : schema) : bool :=
 Inductive res := Ok | Refused.
 
 (* what the file holds for one frame *)
-Inductive tslot := TGiven            (* the caller's time (= the frame id) *)
+Inductive tslot := TVal (n : nat)    (* a time supplied by a caller (the harness supplies the frame id) *)
                  | TIndex (k : nat)  (* xtc/trr: the index of the frame within its write call *)
                  | TFill             (* netCDF fill value *)
                  | TAbsent.          (* nothing stored *)
-Inductive cslot := CGiven | CFill | CZero (* gro: a zero box *) | CAbsent.
+Inductive cslot := CVal (n : nat) (* a cell supplied by a caller *) | CFill | CZero (* gro: a zero box *) | CAbsent.
 Record row := { r_id : nat; r_atoms : nat; r_t : tslot; r_c : cslot }.
 
 (* ------------------------------------------------------------------ what md.load returns *)
@@ -47,7 +47,7 @@ Inductive ob := OVal (n : nat) | OBad | ONone.
 Definition orow := (nat * ob * ob)%type.      (* frame id, time, cell *)
 
 Definition t_present (t : tslot) := match t with TAbsent => false | _ => true end.
-Definition c_present (c : cslot) := match c with CGiven | CFill => true | _ => false end.
+Definition c_present (c : cslot) := match c with CVal _ | CFill => true | _ => false end.
 
 Definition uniform_atoms (rs : list row) : bool :=
   match rs with
@@ -60,9 +60,9 @@ Fixpoint obs_from (i : nat) (tp cp : bool) (rs : list row) : list orow :=
   | [] => []
   | r :: rs' =>
       (r_id r,
-       if tp then match r_t r with TGiven => OVal (r_id r) | TIndex k => OVal k | _ => OBad end
+       if tp then match r_t r with TVal n => OVal n | TIndex k => OVal k | _ => OBad end
        else OVal i,                                  (* no time in the file: the loader numbers the frames *)
-       if cp then match r_c r with CGiven => OVal (r_id r) | _ => OBad end else ONone)
+       if cp then match r_c r with CVal n => OVal n | _ => OBad end else ONone)
       :: obs_from (S i) tp cp rs'
   end.
 
@@ -78,7 +78,8 @@ Record policy := {
   chk_atoms : bool; chk_cell : bool; chk_time : bool;   (* later writes validated against the first one's schema *)
   req_cell : bool; req_time : bool;                     (* the write call insists on the field *)
   store_time : bool; store_cell : bool;                 (* the format has a place for it *)
-  time_index_default : bool                             (* xtc/trr: time=None stores arange(n_frames) of THIS call *)
+  time_index_default : bool;                            (* xtc/trr: time=None stores arange(n_frames) of THIS call *)
+  zero_box : bool                                       (* gro: a frame without cell gets a box line of zeros *)
 }.
 
 Record sfile := { sf_schema : option schema; sf_rows : list row }.
@@ -99,9 +100,9 @@ Fixpoint rows_of (pol : policy) (b : batch) (k : nat) (ids : list nat) : list ro
   | i :: ids' =>
       {| r_id := i; r_atoms := b_atoms b;
          r_t := if store_time pol
-                then (if b_time b then TGiven else if time_index_default pol then TIndex k else TAbsent)
+                then (if b_time b then TVal i else if time_index_default pol then TIndex k else TAbsent)
                 else TAbsent;
-         r_c := if store_cell pol then (if b_cell b then CGiven else CZero) else CAbsent |}
+         r_c := if store_cell pol then (if b_cell b then CVal i else if zero_box pol then CZero else CAbsent) else CAbsent |}
       :: rows_of pol b (S k) ids'
   end.
 
@@ -114,31 +115,35 @@ Definition sload (st : sfile) : option (list orow) := load_rows (sf_rows st).
 
 Definition full_policy : policy :=
   {| chk_atoms := true; chk_cell := true; chk_time := true; req_cell := false; req_time := false;
-     store_time := true; store_cell := true; time_index_default := false |}.
+     store_time := true; store_cell := true; time_index_default := false; zero_box := false |}.
 
 (* the policies of the formats, as found (cell of .pdb is out of scope: one CRYST1 record per file, see C01) *)
 Definition pol_xdr : policy :=       (* xtc, trr *)
   {| chk_atoms := true; chk_cell := true; chk_time := false; req_cell := false; req_time := false;
-     store_time := true; store_cell := true; time_index_default := true |}.
+     store_time := true; store_cell := true; time_index_default := true; zero_box := false |}.
 Definition pol_dcd : policy :=
   {| chk_atoms := true; chk_cell := true; chk_time := false; req_cell := false; req_time := false;
-     store_time := false; store_cell := true; time_index_default := false |}.
+     store_time := false; store_cell := true; time_index_default := false; zero_box := false |}.
 Definition pol_mdcrd : policy :=
   {| chk_atoms := false; chk_cell := true; chk_time := false; req_cell := false; req_time := false;
-     store_time := false; store_cell := true; time_index_default := false |}.
+     store_time := false; store_cell := true; time_index_default := false; zero_box := false |}.
 Definition pol_xyz : policy :=
   {| chk_atoms := false; chk_cell := false; chk_time := false; req_cell := false; req_time := false;
-     store_time := false; store_cell := false; time_index_default := false |}.
+     store_time := false; store_cell := false; time_index_default := false; zero_box := false |}.
 Definition pol_lammpstrj : policy :=
   {| chk_atoms := false; chk_cell := false; chk_time := false; req_cell := true; req_time := false;
-     store_time := false; store_cell := true; time_index_default := false |}.
+     store_time := false; store_cell := true; time_index_default := false; zero_box := false |}.
 Definition pol_gro : policy :=
   {| chk_atoms := false; chk_cell := false; chk_time := false; req_cell := false; req_time := false;
-     store_time := true; store_cell := true; time_index_default := false |}.
+     store_time := true; store_cell := true; time_index_default := false; zero_box := true |}.
+(* mdcrd with the proposed repair (fixes/C19-mdcrd-atom-count.diff): the atom count is validated *)
+Definition pol_mdcrd_fix : policy :=
+  {| chk_atoms := true; chk_cell := true; chk_time := false; req_cell := false; req_time := false;
+     store_time := false; store_cell := true; time_index_default := false; zero_box := false |}.
 Definition pol_pdb : policy := pol_xyz.
 Definition pol_dtr : policy :=
   {| chk_atoms := true; chk_cell := false; chk_time := false; req_cell := true; req_time := true;
-     store_time := true; store_cell := true; time_index_default := false |}.
+     store_time := true; store_cell := true; time_index_default := false; zero_box := false |}.
 
 (* ------------------------------------------------------------------ HDF5: one extendable array per field *)
 Record h5file := { h_schema : option schema;
@@ -152,7 +157,6 @@ Definition h5_schema (st : h5file) (b : batch) : schema :=
 (* hdf5.py:write — fields in the order coordinates, time, cell; a field's test happens at its turn *)
 Definition h5_cur (b : batch) (st : h5file) : res * h5file :=
   let s := h5_schema st b in
-  let n := length (b_ids b) in
   let st0 := {| h_schema := Some s; h_coords := h_coords st; h_time := h_time st; h_cell := h_cell st |} in
   if negb (Nat.eqb (b_atoms b) (s_atoms s)) then (Refused, st0)       (* EArray.append checks the shape first *)
   else
@@ -161,11 +165,11 @@ Definition h5_cur (b : batch) (st : h5file) : res * h5file :=
     if negb (Bool.eqb (b_time b) (s_time s)) then (Refused, st1)
     else
       let st2 := {| h_schema := Some s; h_coords := h_coords st1;
-                    h_time := if b_time b then h_time st ++ repeat TGiven n else h_time st;
+                    h_time := if b_time b then h_time st ++ map TVal (b_ids b) else h_time st;
                     h_cell := h_cell st |} in
       if negb (Bool.eqb (b_cell b) (s_cell s)) then (Refused, st2)
       else (Ok, {| h_schema := Some s; h_coords := h_coords st2; h_time := h_time st2;
-                   h_cell := if b_cell b then h_cell st ++ repeat CGiven n else h_cell st |}).
+                   h_cell := if b_cell b then h_cell st ++ map CVal (b_ids b) else h_cell st |}).
 
 Definition h5_refuses (st : h5file) (b : batch) : bool :=
   match h_schema st with
@@ -209,8 +213,8 @@ Fixpoint overwrite (rs : list row) (ids : list nat) (atoms : nat) (s : schema) (
       let old_t := match rs with r :: _ => r_t r | [] => if s_time s then TFill else TAbsent end in
       let old_c := match rs with r :: _ => r_c r | [] => if s_cell s then CFill else CAbsent end in
       {| r_id := i; r_atoms := atoms;
-         r_t := if set_t then TGiven else old_t;
-         r_c := if set_c then CGiven else old_c |}
+         r_t := if set_t then TVal i else old_t;
+         r_c := if set_c then CVal i else old_c |}
       :: overwrite (tl rs) ids' atoms s set_t set_c
   end.
 Definition deposit (rs : list row) (pos : nat) (ids : list nat) (atoms : nat) (s : schema)
@@ -281,21 +285,22 @@ Definition mk_batch (s : schema) (ids : list nat) : batch :=
    flush sit in a library / stdio buffer.  [auto] = the writer flushes at the end of every write (HDF5) or
    writes through (DCD: unbuffered fio + header rewrite per time step).  A crash keeps the durable frames
    and an arbitrary prefix of the buffered ones (the operating system may have written part of the
-   buffer): [crash_images] lists every possibility. *)
+   buffer): [crash_images] lists every possibility.  A file opened in append mode starts from the frames an
+   earlier handle wrote and closed: the harness prefixes such a history with [DWrite pre; DClose], so the same
+   automaton (and flush_durable) says that the old frames and every appended+flushed frame survive. *)
 Inductive dop := DWrite (ids : list nat) | DFlush | DClose.
-Record dstate := { durable : list nat; buffered : list nat; closed : bool }.
-Definition dinit : dstate := {| durable := []; buffered := []; closed := false |}.
+Record dstate := { durable : list nat; buffered : list nat }.
+Definition dinit : dstate := {| durable := []; buffered := [] |}.
 
 Definition dstep (auto : bool) (o : dop) (s : dstate) : dstate :=
-  if closed s then s else
   match o with
-  | DWrite ids => if auto then {| durable := durable s ++ buffered s ++ ids; buffered := []; closed := false |}
-                  else {| durable := durable s; buffered := buffered s ++ ids; closed := false |}
-  | DFlush => {| durable := durable s ++ buffered s; buffered := []; closed := false |}
-  | DClose => {| durable := durable s ++ buffered s; buffered := []; closed := true |}
+  | DWrite ids => if auto then {| durable := durable s ++ buffered s ++ ids; buffered := [] |}
+                  else {| durable := durable s; buffered := buffered s ++ ids |}
+  | DFlush | DClose => {| durable := durable s ++ buffered s; buffered := [] |}
   end.
 
-Definition drun (auto : bool) (ops : list dop) : dstate := fold_left (fun s o => dstep auto o s) ops dinit.
+Definition drun_from (auto : bool) (ops : list dop) (s : dstate) : dstate := fold_left (fun s o => dstep auto o s) ops s.
+Definition drun (auto : bool) (ops : list dop) : dstate := drun_from auto ops dinit.
 
 Fixpoint prefixes (l : list nat) : list (list nat) :=
   match l with
@@ -335,7 +340,7 @@ Definition obs_eqb (a b : option (list orow)) : bool :=
 Definition policy_of (v : nat) : policy :=
   match v with
   | 0 => pol_xdr | 1 => pol_dcd | 2 => pol_mdcrd | 3 => pol_xyz | 4 => pol_lammpstrj | 5 => pol_gro
-  | 6 => pol_pdb | 7 => pol_dtr | _ => full_policy
+  | 6 => pol_pdb | 7 => pol_dtr | 9 => pol_mdcrd_fix | _ => full_policy
   end.
 
 (* variants: 0..8 stream policies (8 = full), 10 = h5_cur, 11 = h5_fix, 12 = nc_cur, 13 = nc_fix.
